@@ -1,6 +1,11 @@
 package mon
 
-import "strings"
+import (
+	"strings"
+
+	"verif/internal/gen"
+	"verif/internal/reflex"
+)
 
 // c11LongLists: one parser instance serves thousands of statements, so anything it accumulates from statement to
 // statement (counters, depth, cached tokens) shows only in long lists.
@@ -49,6 +54,57 @@ func c11LongLists(c *Ctx, idx int) {
 		c.Count("long_lists", 1)
 		c.Count("long_lists_of_G_sentences", 1)
 	})
+}
+
+// c11SemicolonEverywhere: a ';' in front of every token of every corpus file and systematic sentence. Wherever the
+// ';' lands (inside brackets, braces, hints, type arguments, CASE ... END), it is a top-level separator for the
+// splitter, so the list parser has to treat it as one too.
+func c11SemicolonEverywhere(c *Ctx, idx int) {
+	one := func(kind, text string) {
+		lx := reflex.Lex(text)
+		if lx.Status != reflex.Accept || len(text) > 3000 {
+			return
+		}
+		for _, t := range lx.Toks {
+			CheckC11(c, kind, text[:t.Pos]+";"+text[t.Pos:])
+			c.Count("semicolon_insertions", 1)
+		}
+	}
+	for _, cc := range c.Corpus() {
+		if c.Mine(idx) && !cc.Bad {
+			switch cc.Dir {
+			case "ddl":
+				one("ddls", cc.Text)
+			case "dml":
+				one("dmls", cc.Text)
+			case "expr":
+				one("statements", "SELECT "+cc.Text)
+			default:
+				one("statements", cc.Text)
+			}
+		}
+		idx++
+	}
+	set, _, _ := gen.SystematicSet()
+	rr := gen.NewRand(1, 4100)
+	for _, s := range set {
+		txt := gen.Render(rr, s, gen.RenderOpts{})
+		if c.Mine(idx) && gen.RelexGuard(txt, s) {
+			switch s.Entry {
+			case "expr":
+				one("statements", "SELECT "+txt)
+			case "type":
+				one("statements", "SELECT CAST(NULL AS "+txt+")")
+			case "ddl":
+				one("ddls", txt)
+			case "dml":
+				one("dmls", txt)
+			default:
+				one("statements", txt)
+			}
+		}
+		idx++
+	}
 }
 
 // c11Shapes: statements whose parsing touches bracket, generic-type, hint, template and recovery code.
